@@ -272,7 +272,22 @@ class Effects:
 
     def _pathish(self, e: ast.AST) -> bool:
         s = unparse(e)
-        return "Path(" in s or "path" in s.lower()
+        if "Path(" in s or "path" in s.lower():
+            return True
+        # a local bound to a Path(...) - alone or as one element of a tuple assignment
+        if isinstance(e, ast.Name):
+            fn = enclosing(e, (ast.FunctionDef, ast.AsyncFunctionDef))
+            for st in (walk_no_nested(fn) if fn is not None else ()):
+                if not isinstance(st, ast.Assign):
+                    continue
+                for t in st.targets:
+                    if isinstance(t, ast.Name) and t.id == e.id and "Path(" in unparse(st.value):
+                        return True
+                    if isinstance(t, ast.Tuple) and isinstance(st.value, ast.Tuple) and len(t.elts) == len(st.value.elts):
+                        for a, b in zip(t.elts, st.value.elts):
+                            if isinstance(a, ast.Name) and a.id == e.id and "Path(" in unparse(b):
+                                return True
+        return False
 
     def canon(self, name: str, mi: ModuleInfo) -> str:
         """Canonicalise `osp.join` -> `os.path.join`, `ET.parse` -> `xml.etree.ElementTree.parse`
